@@ -24,7 +24,10 @@ FIGURES = {
 CONTEXT_LIMITS = {
     "Legacy": [("check_global_consensus_validity", ["pk_cost"], spec.MAX_SCRIPT_ELEMENT_SIZE, "MaxRedeemScriptSizeExceeded"),
                ("check_local_consensus_validity", ["sat_op_count"], spec.MAX_OPS_PER_SCRIPT, "MaxOpCountExceeded"),
-               ("check_local_policy_validity", ["max_satisfaction_size"], spec.MAX_SCRIPTSIG_SIZE, "MaxScriptSigSizeExceeded")],
+               # the scriptSig of a P2SH spend is the satisfaction *and* the push of the redeem script: Bitcoin Core's
+               # 1650-byte standardness limit is on the whole of it
+               ("check_local_policy_validity", ["max_satisfaction_size", "script_size", "push_opcode_size"], spec.MAX_SCRIPTSIG_SIZE,
+                "MaxScriptSigSizeExceeded")],
     "Segwitv0": [("check_global_consensus_validity", ["pk_cost"], spec.MAX_SCRIPT_SIZE, "MaxWitnessScriptSizeExceeded"),
                  ("check_global_policy_validity", ["pk_cost"], spec.MAX_STANDARD_P2WSH_SCRIPT_SIZE, "MaxWitnessScriptSizeExceeded"),
                  ("check_local_consensus_validity", ["sat_op_count"], spec.MAX_OPS_PER_SCRIPT, "MaxOpCountExceeded"),
@@ -174,7 +177,8 @@ def check_context_limits(chk, F):
             chk.saw(p)
             where = F.fns[p]["span"]
             m = Machine(F, strict=False,
-                        uninterpreted=lambda pp, c: c.get("name") in ("max_satisfaction_size", "sat_op_count",
+                        uninterpreted=lambda pp, c: c.get("name") in ("max_satisfaction_size", "sat_op_count", "script_size",
+                                                                       "push_opcode_size",
                                                                        "max_satisfaction_witness_elements", "to_wu"))
             try:
                 paths = explore(m, lambda: m.call_path(p, [ms_value()]))
@@ -215,6 +219,39 @@ def check_context_limits(chk, F):
         chk.obligation(rid, not extra, ctx + "|extra",
                        "%s has limit checks the oracle does not know: %r" % (ctx, [(x[0], x[3]) for x in extra]))
     chk.sample({"context limit table": {k: [(t[0], "+".join(t[1]), t[2]) for t in v] for k, v in CONTEXT_LIMITS.items()}})
+    # the P2SH scriptSig limit on numbers: satisfaction + push of the redeem script against 1650, across the boundary
+    try:
+        p = [q for q in F.fn("check_local_policy_validity", file="miniscript/context.rs", allow_many=True) if "::Legacy as " in q][0]
+    except (KeyError, IndexError):
+        chk.fail(rid, "Legacy|scriptsig-grid|anchor", "Legacy::check_local_policy_validity not found", kind="unanalysable")
+        return
+    from ..interp import ok as ok_
+    cur = {}
+    hooks = {}
+    for q in F.fns:
+        if q.endswith("::max_satisfaction_size") and "Miniscript" in q:
+            hooks[q] = lambda m_, a, c: ok_(cur["sat"])
+        if q.endswith("Miniscript<Pk, Ctx>>::script_size"):
+            hooks[q] = lambda m_, a, c: cur["script"]
+    m = Machine(F, strict=True, hooks=hooks)
+    n = 0
+    for sat, script in [(0, 0), (1498, 350), (1100, 513), (1127, 520), (1128, 520), (1650, 0), (1649, 0), (1573, 75), (1574, 75),
+                        (1572, 76), (1571, 76), (1393, 254), (1394, 255), (1392, 256), (1391, 256), (2000, 10)]:
+        cur.update(sat=sat, script=script)
+        total = sat + script + (1 if script < 76 else 2 if script < 256 else 3)
+        try:
+            r = m.call_path(p, [ms_value()])
+            n += 1
+            chk.obligation(rid, (r.variant == "Err") == (total > spec.MAX_SCRIPTSIG_SIZE), "Legacy|scriptsig-grid|%d+%d" % (sat, script),
+                           "a P2SH miniscript whose satisfaction takes %d bytes and whose redeem script is %d bytes long has a %d-byte "
+                           "scriptSig (limit %d); Legacy::check_local_policy_validity answers %s"
+                           % (sat, script, total, spec.MAX_SCRIPTSIG_SIZE, r.variant), F.fns[p]["span"])
+        except Unsupported as e:
+            chk.fail(rid, "Legacy|scriptsig-grid|unanalysable", "unanalysable: %s" % e, where=e.where, kind="unanalysable")
+            break
+        except Panic as e:
+            chk.fail(rid, "Legacy|scriptsig-grid|%d+%d" % (sat, script), "panic: %s" % e, F.fns[p]["span"])
+    chk.floor(rid, "scriptSig grid", n, 16)
 
 
 def check_item_sizes(chk, F):
